@@ -166,12 +166,24 @@ func verifyFunctionOpt(P *Program, fn *ssa.Function, props []string, opt func(*E
 	entry := st
 	env := e.contractEnv(fn, ct, args, entry, entry, st.brk)
 	e.evalLets(env, ct)
+	if len(ct.Determines) > 0 {
+		// the (whole) output buffer of the root: last slice-typed parameter
+		for i := len(fn.Params) - 1; i >= 0; i-- {
+			if _, ok := fn.Params[i].Type().Underlying().(*types.Slice); ok {
+				e.rootDet = &cval{v: args[i], T: fn.Params[i].Type()}
+				break
+			}
+		}
+	}
 	for _, r := range ct.Requires {
 		env.where = r.Line
+		env.cur, env.old = st, st
 		g := env.evalBool(r.X)
 		st = e.useFacts(st, env)
 		st = st.assume(g)
 	}
+	// the entry state as seen by old(), frames and relational checks: with the preconditions
+	entry = st
 	// vacuity cover: the preconditions must be satisfiable
 	e.cover(st, fn, "cover.requires")
 	fr := e.newFrame(fn, args, st, 0)
@@ -207,6 +219,9 @@ func verifyFunctionOpt(P *Program, fn *ssa.Function, props []string, opt func(*E
 		if ct.HasAssigns {
 			e.frameCheck(s, entry, penv, ct.Assigns, fn, "assigns", entry.brk)
 		}
+	}
+	if len(ct.Determines) > 0 {
+		e.determinedCheck(fn, ct, args, entry, outs)
 	}
 	// reachability of a normal return (vacuity guard iii): some return path is feasible
 	for i, o := range outs {
@@ -261,7 +276,7 @@ func (e *Exec) frameCheck(cur State, base State, env *cenv, assigns []Expr, fn *
 func (e *Exec) havocSpans(st State, spans []span, what string) State {
 	c := e.c
 	for _, s := range spans {
-		arr := c.Fresh("hv."+what, Sort{KArr, heapWidths[s.h]})
+		arr := c.Fresh(what, Sort{KArr, heapWidths[s.h]})
 		st.h[s.h] = st.h[s.h].push(HeapLayer{kind: lHavoc, addr: s.start, n: s.n, arr: arr})
 	}
 	return st
@@ -274,7 +289,7 @@ func (e *Exec) havocAbove(st State, what string) State {
 	old := st.brk
 	for h := 0; h < 4; h++ {
 		arr := c.Fresh("hva."+what, Sort{KArr, heapWidths[h]})
-		st.h[h] = st.h[h].push(HeapLayer{kind: lHavocAbove, addr: old, arr: arr, seq: e.seq + 1})
+		st.h[h] = st.h[h].push(HeapLayer{kind: lHavocAbove, addr: old, arr: arr, seq: e.seq + 1, tid: c.nextID})
 	}
 	nb := c.Fresh("brk."+what, BV(64))
 	st = st.assume(c.Ule(old, nb))
@@ -314,6 +329,7 @@ func (e *Exec) applyContract(fr *Frame, st State, fn *ssa.Function, ct *FuncCont
 	short := shortFn(fn.String())
 	for i, r := range ct.Requires {
 		env.where = r.Line
+		env.cur, env.old = st, st
 		goal := env.evalBool(r.X)
 		st = e.useFacts(st, env)
 		lab := r.Label
@@ -329,7 +345,24 @@ func (e *Exec) applyContract(fr *Frame, st State, fn *ssa.Function, ct *FuncCont
 			spans = append(spans, env.lvalueSpans(a)...)
 		}
 		st = e.useFacts(st, env)
-		st = e.havocSpans(st, spans, short)
+		what := "hv." + short
+		if len(ct.Determines) > 0 {
+			// the callee's output over its determined range is a function of its inputs, which
+			// are the same in both runs of a relational check: the array keeps its name there
+			what = "in.$det." + short
+			if e.rootCt != nil && len(e.rootCt.Determines) > 0 && e.rootDet != nil {
+				for i, a := range args {
+					T := fn.Params[i].Type()
+					if _, isSl := T.Underlying().(*types.Slice); isSl && i == len(args)-1 {
+						continue // the output buffer itself
+					}
+					goal := env.sepDeep(cval{v: a, T: T}, *e.rootDet)
+					st = e.useFacts(st, env)
+					st = e.oblige(st, fr.fn, "pre", short+"/det-sep", pos, goal)
+				}
+			}
+		}
+		st = e.havocSpans(st, spans, what)
 	} else {
 		st = e.havocAll(st, short)
 	}
@@ -346,6 +379,7 @@ func (e *Exec) applyContract(fr *Frame, st State, fn *ssa.Function, ct *FuncCont
 	e.evalLets(penv, ct)
 	for _, en := range ct.Ensures {
 		penv.where = en.Line
+		penv.cur = st
 		g := penv.evalBool(en.X)
 		st = e.useFacts(st, penv)
 		st = st.assume(g)
@@ -418,7 +452,9 @@ func (e *Exec) ctFor(fr *Frame) *FuncContract {
 	return e.P.contracts.lookup(e.P, fr.fn)
 }
 
-// namedValues maps source identifiers to SSA registers via DebugRef instructions.
+// namedValues maps source identifiers to SSA registers via DebugRef instructions: for each
+// name the latest reference whose value is defined in a block dominating the loop header
+// (header phis themselves are bound separately).
 func (e *Exec) namedValues(fr *Frame, b *ssa.BasicBlock) map[string]cval {
 	out := map[string]cval{}
 	for _, bb := range fr.fn.Blocks {
@@ -435,12 +471,25 @@ func (e *Exec) namedValues(fr *Frame, b *ssa.BasicBlock) map[string]cval {
 			if strings.ContainsAny(name, ".([ ") {
 				continue
 			}
-			if v, ok := fr.regs[d.X]; ok {
-				if _, isPhi := d.X.(*ssa.Phi); isPhi {
+			v, ok := fr.regs[d.X]
+			if !ok {
+				continue
+			}
+			if instr, isInstr := d.X.(ssa.Instruction); isInstr {
+				db := instr.Block()
+				if db == b {
+					if _, isPhi := d.X.(*ssa.Phi); isPhi {
+						continue
+					}
+				}
+				if db != nil && !db.Dominates(b) {
 					continue
 				}
-				out[name] = cval{v: v, T: d.X.Type()}
 			}
+			if !bb.Dominates(b) && bb != b {
+				continue
+			}
+			out[name] = cval{v: v, T: d.X.Type()}
 		}
 	}
 	return out
@@ -521,7 +570,7 @@ func (e *Exec) enterLoopHeader(fr *Frame, st State, b *ssa.BasicBlock, prev *ssa
 				spans = append(spans, env.lvalueSpans(a)...)
 			}
 			st = e.useFacts(st, env)
-			st = e.havocSpans(st, spans, "loop")
+			st = e.havocSpans(st, spans, "hv.loop")
 		}
 		limit := st.brk
 		st = e.havocAbove(st, "loop")
@@ -599,4 +648,131 @@ func (e *Exec) boundedSet(name string, k int) {
 		}
 	}
 	e.bounded = append(e.bounded, s)
+}
+
+// ---------- "determines": relational (two-run) check ----------
+
+// primer maps a term of the first run to the corresponding term of a second run that
+// starts from a heap differing from the first only inside the byte range [start, start+n).
+type primer struct {
+	e     *Exec
+	start *Term
+	n     *Term
+	x8    *Term
+	memo  map[*Term]*Term
+}
+
+func inputName(n string) bool {
+	return strings.HasPrefix(n, "in.") || n == "BRK0" || strings.HasPrefix(n, "G.") || strings.HasPrefix(n, "S.") ||
+		n == "H8" || n == "H16" || n == "H32" || n == "H64"
+}
+
+func (p *primer) prime(t *Term) *Term {
+	if r, ok := p.memo[t]; ok {
+		return r
+	}
+	c := p.e.c
+	var r *Term
+	switch {
+	case t.Op == OVar:
+		if inputName(t.Name) {
+			r = t
+		} else {
+			r = c.Var(t.Name+"'", t.S)
+		}
+	case t.Op == OConst || t.Op == OBound:
+		r = t
+	case t.Op == OSelect && t.Args[0] == p.e.base[0]:
+		a := p.prime(t.Args[1])
+		r = c.Ite(p.e.inRange(a, p.start, p.n), c.Select(p.x8, a), c.Select(p.e.base[0], a))
+	default:
+		args := make([]*Term, len(t.Args))
+		ch := false
+		for i, a := range t.Args {
+			args[i] = p.prime(a)
+			if args[i] != a {
+				ch = true
+			}
+		}
+		if ch {
+			r = c.rebuild(t, args)
+		} else {
+			r = t
+		}
+	}
+	p.memo[t] = r
+	return r
+}
+
+func (e *Exec) determinedCheck(fn *ssa.Function, ct *FuncContract, args []Val, entry State, outs []Outcome) {
+	c := e.c
+	env := e.contractEnv(fn, ct, args, entry, entry, entry.brk)
+	e.evalLets(env, ct)
+	for di, d := range ct.Determines {
+		env.where = ct.Line
+		spans := env.lvalueSpans(d)
+		spanFacts := append([]*Term{}, (*env.facts)...)
+		*env.facts = (*env.facts)[:0]
+		for _, sp := range spans {
+			if sp.h != 0 {
+				continue
+			}
+			p := &primer{e: e, start: sp.start, n: sp.n, x8: c.Var("in.$other", Sort{KArr, 8}), memo: map[*Term]*Term{}}
+			k := c.Var("in.$k", BV(64))
+			// primed path conditions
+			type pp struct {
+				pcs   []*Term
+				prim  []*Term
+				dep   bool
+			}
+			var ps []pp
+			for _, o := range outs {
+				x := pp{pcs: o.st.pcList()}
+				for _, t := range x.pcs {
+					pt := p.prime(t)
+					x.prim = append(x.prim, pt)
+					if pt != t {
+						x.dep = true
+					}
+				}
+				ps = append(ps, x)
+			}
+			for i, o := range outs {
+				st := o.st
+				if ct.DetWhen != nil {
+					penv := e.contractEnv(fn, ct, args, entry, o.st, entry.brk)
+					e.bindResults(penv, fn, ct, o.ret)
+					g := penv.evalBool(ct.DetWhen)
+					st = e.useFacts(st, penv)
+					st = st.assume(g)
+					if st.pcFalse() {
+						continue
+					}
+				}
+				for _, t := range ps[i].prim {
+					st = st.assume(t)
+				}
+				for _, t := range spanFacts {
+					st = st.assume(t)
+					st = st.assume(p.prime(t))
+				}
+				st = st.assume(c.Ult(k, sp.n))
+				a := c.Add(sp.start, k)
+				v1 := e.read(o.st.h[0], a)
+				v2 := p.prime(v1)
+				e.oblige(st, fn, "determined", fmt.Sprintf("d%d", di), token.NoPos, c.Eq(v1, v2))
+				// the path taken must not depend on the buffer's old content either
+				for j := range outs {
+					if j <= i || !ps[j].dep && !ps[i].dep {
+						continue
+					}
+					s2 := o.st
+					for _, t := range ps[j].prim {
+						s2 = s2.assume(t)
+					}
+					e.oblige(s2, fn, "determined.path", fmt.Sprintf("d%d", di), token.NoPos, c.False)
+				}
+			}
+		}
+	}
 }
